@@ -1,7 +1,8 @@
 CONSTANTS
   N = 0
   MaxCalls = 6
+  ErrClosesNext = TRUE
 SPECIFICATION Spec
-INVARIANTS ResultsOK NoSendOnClosed PinOK
+INVARIANTS ResultsOK ErrOK NoSendOnClosed PinOK
 PROPERTIES NextReturns ProducerExits
 CHECK_DEADLOCK FALSE
